@@ -34,6 +34,10 @@ def setup_path():
         sys.modules['yaml'] = types.ModuleType('yaml')
 
 
+HASHSEED_RUNS = {}
+HASHSEED_BUDGET = int(os.environ.get('PYVC_HASHSEED_BUDGET', '4'))
+
+
 class ScriptedRng:
     """numpy Generator look-alike that returns scripted outcomes"""
 
@@ -43,6 +47,7 @@ class ScriptedRng:
         self.ncalls = 0
         self.deviated = False
         self.log = []
+        self.values = []
         self.ranges = []
         self.fallback = random.Random(fallback_seed)
 
@@ -71,6 +76,7 @@ class ScriptedRng:
             if a <= 0:
                 raise ValueError("a must be greater than 0 unless no samples are taken")
             i = v[0] if v is not None and 0 <= v[0] < a else self.fallback.randrange(a)
+            self.values.append(i)
             return i if data is None else data[i]
         v = self._next('choices')
         if size < 0:
@@ -85,6 +91,7 @@ class ScriptedRng:
                 self.deviated = True
             v = [self.fallback.randrange(a) for _ in range(size)] if replace else self.fallback.sample(range(a), size)
         import numpy as np
+        self.values.append(list(v))
         if data is None:
             return np.array(v, dtype=int)
         out = np.empty(size, dtype=object)
@@ -101,10 +108,13 @@ class ScriptedRng:
         if low >= hi:
             raise ValueError('low >= high')
         if v is not None and low <= v[0] < hi:
+            self.values.append(v[0])
             return v[0]
         if v is not None:
             self.deviated = True
-        return self.fallback.randrange(low, hi)
+        x = self.fallback.randrange(low, hi)
+        self.values.append(x)
+        return x
 
     def random(self, size=None, **kw):
         import numpy as np
@@ -218,6 +228,8 @@ def decode(j):
         return cls(*[decode(x) for x in j['args']], **{k: decode(v) for k, v in j.get('kwargs', {}).items()})
     if 'tuple' in j:
         return tuple(decode(x) for x in j['tuple'])
+    if 'set' in j:
+        return set(decode(x) for x in j['set'])
     if 'with' in j:
         o = decode(j['with'])
         for k, v in j['set'].items():
@@ -298,6 +310,10 @@ def rand_input(sort, r, ctx=None):
             return [rand_input(sort[1], r) for _ in range(sort[2])]
         if sort[0] == 'fn':
             return {'fn': [], 'ret': sort[1], 'salt': r.randint(0, 10 ** 6)}
+        if sort[0] == 'distinct-set':
+            if sort[1] == 'Color':
+                return {'set': [{'enum': 'Color', 'name': n} for n in r.sample(COLORS, sort[2])]}
+            raise ValueError('distinct-set of ' + str(sort[1]))
         if sort[0] == 'opt':
             return {'none': 1} if r.random() < 0.4 else rand_input(sort[1], r)
         if sort[0] == 'tuple':
@@ -342,6 +358,8 @@ def rand_input(sort, r, ctx=None):
         return {'Transform': [rand_input('Position', r), rand_input('Orientation', r)]}
     if sort == 'Obj':
         return rand_obj(r)
+    if sort == 'Class0':
+        return {'class': r.choice(['NoneGridObject', 'Hidden', 'Floor', 'Wall', 'MovingObstacle'])}
     if sort == 'Class':
         return {'class': r.choice(['NoneGridObject', 'Hidden', 'Floor', 'Wall', 'Exit', 'Door', 'Key',
                                    'MovingObstacle', 'Box', 'Telepod', 'Beacon'])}
@@ -491,6 +509,9 @@ def run_contract(spec, inputs_json, only=None):
     args = [vals[p] for p in spec.args if p not in spec.kwonly and p not in ghost]
     kwargs = {p: vals[p] for p in spec.kwonly}
     byname = {p: vals[p] for p in spec.args}
+    if spec.opts.get('call') is not None:
+        args = list(spec.opts['call'](**byname))
+        kwargs = {}
     out = {'contract': spec.name, 'pre_ok': True, 'exception': None, 'clauses': [], 'rng_deviated': False}
     if spec.kind == 'lemma':
         st.phase = 'post'
@@ -572,6 +593,26 @@ def run_contract(spec, inputs_json, only=None):
                     v.__dict__.clear()
                     v.__dict__.update(d)
         return False
+    def hashseed_hook():
+        import subprocess, tempfile
+        HASHSEED_RUNS[spec.name] = HASHSEED_RUNS.get(spec.name, 0) + 1
+        if HASHSEED_RUNS[spec.name] > HASHSEED_BUDGET:
+            return 0   # budget per contract and harness run (each re-run starts five interpreters)
+        reprs = set()
+        with tempfile.NamedTemporaryFile('w', suffix='.json', delete=False) as f:
+            json.dump({'module': spec.fn.__module__, 'contract': spec.name, 'inputs': inputs_json}, f)
+            path = f.name
+        try:
+            for hs in ('1', '2', '3', '4', '5'):
+                env = dict(os.environ, PYTHONHASHSEED=hs, PYVC_REPO=REPO)
+                p = subprocess.run([sys.executable, os.path.abspath(__file__), 'rerun', path], capture_output=True,
+                                   text=True, env=env, timeout=120)
+                lines = [l for l in p.stdout.splitlines() if l.startswith('RESULT ')]
+                reprs.add(lines[-1] if lines else 'ERR ' + p.stderr[-200:])
+        finally:
+            os.remove(path)
+        return 0 if len(reprs) == 1 else 1
+    st.hashseed_hook = hashseed_hook
     st.possible_hook = possible_hook
     try:
         spec.fn(**byname)
@@ -606,6 +647,23 @@ def correlate(inputs, spec, r):
                 inputs[p] = {'Position': [r.randint(0, h - 1), r.randint(0, w - 1)]}
         if 'position' in inputs and spec.name.startswith('v_partially') and r.random() < 0.8:
             inputs['position'] = {'Position': [h - 1, r.randint(0, w - 1)]}
+
+
+def cmd_rerun(path):
+    """run the target once on the given inputs and print a canonical repr of the outcome"""
+    with open(path) as f:
+        rp = json.load(f)
+    spec = find_contract(rp['module'], rp['contract'])
+    vals = {k: decode(v) for k, v in rp['inputs'].items() if not k.startswith('stub:')}
+    ghost = spec.opts.get('ghost', [])
+    args = [vals[p] for p in spec.args if p not in spec.kwonly and p not in ghost]
+    kwargs = {p: vals[p] for p in spec.kwonly}
+    target = resolve(spec.target)
+    try:
+        r = target(*args, **kwargs)
+        print('RESULT ' + repr(r))
+    except Exception as e:
+        print('RESULT raised ' + type(e).__name__)
 
 
 def cmd_crosscheck(module, n, seed, names):
@@ -646,6 +704,8 @@ def main():
     cmd = sys.argv[1]
     if cmd == 'replay':
         cmd_replay(sys.argv[2])
+    elif cmd == 'rerun':
+        cmd_rerun(sys.argv[2])
     elif cmd == 'crosscheck':
         cmd_crosscheck(sys.argv[2], int(sys.argv[3]), int(sys.argv[4]), sys.argv[5:])
     else:
